@@ -120,7 +120,7 @@ func (d *defaultValidator) validateDefaultValueValidAgainstSchema() *Result {
 					if red.HasErrorsOrWarnings() {
 						res.AddErrors(defaultValueDoesNotValidateMsg(param.Name, param.In))
 						res.Merge(red)
-					} else if red.wantsRedeemOnMerge {
+					} else if red != nil && red.wantsRedeemOnMerge {
 						pools.poolOfResults.RedeemResult(red)
 					}
 				}
@@ -131,7 +131,7 @@ func (d *defaultValidator) validateDefaultValueValidAgainstSchema() *Result {
 					if red.HasErrorsOrWarnings() {
 						res.AddErrors(defaultValueItemsDoesNotValidateMsg(param.Name, param.In))
 						res.Merge(red)
-					} else if red.wantsRedeemOnMerge {
+					} else if red != nil && red.wantsRedeemOnMerge {
 						pools.poolOfResults.RedeemResult(red)
 					}
 				}
@@ -142,7 +142,7 @@ func (d *defaultValidator) validateDefaultValueValidAgainstSchema() *Result {
 					if red.HasErrorsOrWarnings() {
 						res.AddErrors(defaultValueDoesNotValidateMsg(param.Name, param.In))
 						res.Merge(red)
-					} else if red.wantsRedeemOnMerge {
+					} else if red != nil && red.wantsRedeemOnMerge {
 						pools.poolOfResults.RedeemResult(red)
 					}
 				}
@@ -195,7 +195,7 @@ func (d *defaultValidator) validateDefaultInResponse(resp *spec.Response, respon
 				if red.HasErrorsOrWarnings() {
 					res.AddErrors(defaultValueHeaderDoesNotValidateMsg(operationID, nm, responseName))
 					res.Merge(red)
-				} else if red.wantsRedeemOnMerge {
+				} else if red != nil && red.wantsRedeemOnMerge {
 					pools.poolOfResults.RedeemResult(red)
 				}
 			}
@@ -206,7 +206,7 @@ func (d *defaultValidator) validateDefaultInResponse(resp *spec.Response, respon
 				if red.HasErrorsOrWarnings() {
 					res.AddErrors(defaultValueHeaderItemsDoesNotValidateMsg(operationID, nm, responseName))
 					res.Merge(red)
-				} else if red.wantsRedeemOnMerge {
+				} else if red != nil && red.wantsRedeemOnMerge {
 					pools.poolOfResults.RedeemResult(red)
 				}
 			}
@@ -227,7 +227,7 @@ func (d *defaultValidator) validateDefaultInResponse(resp *spec.Response, respon
 			// Additional message to make sure the context of the error is not lost
 			res.AddErrors(defaultValueInDoesNotValidateMsg(operationID, responseName))
 			res.Merge(red)
-		} else if red.wantsRedeemOnMerge {
+		} else if red != nil && red.wantsRedeemOnMerge {
 			pools.poolOfResults.RedeemResult(red)
 		}
 	}
